@@ -11,6 +11,7 @@ import (
 
 	"github.com/syndtr/goleveldb/leveldb"
 	"github.com/syndtr/goleveldb/leveldb/opt"
+	"github.com/syndtr/goleveldb/leveldb/storage"
 	"github.com/syndtr/goleveldb/leveldb/util"
 	"verifharness/lib/dbh"
 	"verifharness/lib/vlib"
@@ -64,6 +65,43 @@ func whereBlocked(mark uint64) string {
 	return "goroutine not found"
 }
 
+// raceCtl widens, for one round, the window between tOps.open's table-cache lookup and the use of the handle
+// it returned (hook point verifTableOpened of the repo, build tag verif): once the round is about to call Close
+// ("armed") a racing caller that reaches the point waits there until Close has returned (bounded), so that it
+// then uses a handle of a force-closed cache. The hook is process-wide and dispatches on the storage; goroutines
+// of the DB's own compactions are let through (Close waits for them).
+type raceCtl struct{ armed, done, parked int32 }
+
+var raceCtls sync.Map // storage.Storage -> *raceCtl
+
+func tableOpenedHook(st storage.Storage) {
+	v, ok := raceCtls.Load(st)
+	if !ok {
+		return
+	}
+	c := v.(*raceCtl)
+	if atomic.LoadInt32(&c.armed) == 0 || atomic.LoadInt32(&c.done) != 0 {
+		return
+	}
+	var pcs [48]uintptr
+	n := runtime.Callers(2, pcs[:])
+	fr := runtime.CallersFrames(pcs[:n])
+	for {
+		f, more := fr.Next()
+		if strings.Contains(f.Function, "Compaction") {
+			return
+		}
+		if !more {
+			break
+		}
+	}
+	atomic.AddInt32(&c.parked, 1)
+	deadline := time.Now().Add(50 * time.Millisecond)
+	for atomic.LoadInt32(&c.done) == 0 && time.Now().Before(deadline) {
+		time.Sleep(20 * time.Microsecond)
+	}
+}
+
 type raceOutcome struct {
 	fails  []string
 	known  map[string]string
@@ -92,6 +130,10 @@ func raceRound(r *vlib.RNG) raceOutcome {
 		cfg.OpenFiles = 0
 	}
 	st := vstor.New(false)
+	ctl := &raceCtl{}
+	raceCtls.Store(storage.Storage(st), ctl)
+	defer raceCtls.Delete(storage.Storage(st))
+	defer atomic.StoreInt32(&ctl.done, 1)
 	db, err := leveldb.Open(st, cfg.Options())
 	if err != nil {
 		fail("race: Open error %v", err)
@@ -160,14 +202,9 @@ func raceRound(r *vlib.RNG) raceOutcome {
 				if x := recover(); x != nil {
 					stack := trimStack(debugStack())
 					fr := firstLeveldbFrame(stack)
-					d := fmt.Sprintf("a %s call racing with Close panicked: %v at %s", kind, x, fr)
-					if strings.Contains(fmt.Sprint(x), "cache.Value is nil, not *table.Reader") && strings.Contains(fr, "leveldb.(*tOps).") {
-						mu.Lock()
-						out.known["table-cache-value-nil-races-close"] = d
-						mu.Unlock()
-					} else {
-						fail("%s\n%s", d, stack)
-					}
+					// any panic is a violation (the table-cache value zeroed under a racing read used to be a
+					// recorded finding; tOps.open now tests the value and returns ErrClosed)
+					fail("a %s call racing with Close panicked: %v at %s\n%s", kind, x, fr, stack)
 				}
 			}()
 			key := func() []byte { return pool[rr.Intn(len(pool))] }
@@ -280,6 +317,16 @@ func raceRound(r *vlib.RNG) raceOutcome {
 		}(g, kinds[g])
 	}
 	time.Sleep(time.Duration(r.Intn(3000)) * time.Microsecond)
+	widen := r.Chance(1, 2)
+	if widen {
+		atomic.StoreInt32(&ctl.armed, 1)
+		stat("race_rounds_window_widened")
+	}
+	defer func() {
+		if n := atomic.LoadInt32(&ctl.parked); n > 0 {
+			stat("race_rounds_with_calls_held_in_the_table_open_window")
+		}
+	}()
 	t0 := time.Now()
 	mark := 0x5c18000000 + atomic.AddUint64(&closeSeq, 1)*0x1001
 	cd := make(chan error, 1)
@@ -295,10 +342,12 @@ func raceRound(r *vlib.RNG) raceOutcome {
 	select {
 	case err := <-cd:
 		out.closeT = time.Since(t0)
+		atomic.StoreInt32(&ctl.done, 1)
 		if err != nil {
 			fail("Close racing with calls [%s] returned %v", raced, err)
 		}
 	case <-time.After(10 * time.Second):
+		atomic.StoreInt32(&ctl.done, 1)
 		where := whereBlocked(mark)
 		d := fmt.Sprintf("Close did not return within 10 s while racing with calls [%s]; it is blocked at: %s", raced, where)
 		switch {
